@@ -89,7 +89,8 @@ Definition base_gas (P : gparams) (m : msg) : N :=
 
 (* the staking handler detains no more than the sender still owns after
    buying gas (handlers test core.CanTransfer before SubBalance) *)
-Definition stake_sane (st : state) (m : msg) : Prop :=
+Definition stake_sane (P : gparams) (st : state) (m : msg) : Prop :=
+  is_staking P (m_to m) = true ->
   forall d, so_result (m_stk m) = Some d -> d + m_gas m * m_price m <= bal st (m_from m).
 
 Definition dest (m : msg) : N := match m_to m with Some a => a | None => m_newaddr m end.
@@ -388,7 +389,7 @@ Qed.
 
 (* common shape of everything past buyGas *)
 Lemma apply_past_buygas : forall P ver run st gp m,
-  run_le run -> stake_sane st m ->
+  run_le run -> stake_sane P st m ->
   m_sigok m = true -> nonce st (m_from m) = m_nonce m ->
   m_gas m * m_price m <= bal st (m_from m) -> m_gas m <= gp ->
   forall ig, intrinsic P (base_gas P m) (m_data m) = Some ig -> ig <= m_gas m ->
@@ -407,7 +408,7 @@ Proof.
   split.
   - unfold r. destruct (is_staking P (m_to m)) eqn:Es; cbn [negb orb].
     + apply staking_apply_ok; [unfold avail; lia | exact Es |].
-      intros d Hd. specialize (SS d Hd). unfold st1. rewrite bal_sub_bal, N.eqb_refl. lia.
+      intros d Hd. specialize (SS Es d Hd). unfold st1. rewrite bal_sub_bal, N.eqb_refl. lia.
     + apply default_apply_ok; [exact RL | unfold avail; lia | exact Es].
   - unfold apply_message. rewrite Hsig. cbn [negb].
     unfold nonce in Hn. unfold bal in Hb.
@@ -443,7 +444,7 @@ Proof.
 Qed.
 
 Theorem accounting : forall P ver run st gp m g f st' gp',
-  run_le run -> stake_sane st m ->
+  run_le run -> stake_sane P st m ->
   (is_staking P (m_to m) = true -> g_v4 P <= ver) ->
   apply_message P ver run st gp m = (Applied g f, st', gp') ->
   nonce st (m_from m) = m_nonce m /\
@@ -493,7 +494,7 @@ Qed.
 
 (* outside the finding class (no refund counter): exact charge *)
 Corollary accounting_exact : forall P ver run st gp m g f st' gp',
-  run_le run -> stake_sane st m ->
+  run_le run -> stake_sane P st m ->
   (is_staking P (m_to m) = true -> g_v4 P <= ver) ->
   no_refund run \/ is_staking P (m_to m) = true ->
   apply_message P ver run st gp m = (Applied g f, st', gp') ->
